@@ -13,12 +13,15 @@ use serde::{Deserialize, Serialize};
 use std::collections::BTreeMap;
 use std::time::Instant;
 
-pub const RULE: &str = "cases = one accepted graph + kinematics, 4 x-space points and a history of 1..40 operations on a shared sampler: SampleX(point, return_metadata, print_debug_info, stability None/Some(1e300)), SampleRng(seed, flags), UseClone, UseSerdeCopy (continue with a JSON round-tripped copy), Burst(t<=8 threads x m<=6 samples on the shared sampler). model = map (point, stability setting) -> first observed bit pattern of (loop_momenta,u,v,u_trop,v_trop,jacobian | error kind); invariant after every step: every observation equals the model, for all combinations of return_metadata x print_debug_info. generate_sample_from_rng: the rng is cloned, get_dimension() numbers are drawn from the clone, the result must equal the x-space call on those numbers and both rngs must be in the same state afterwards. cross-process: the same graphs/points are sampled in a freshly started process (different hash seeds) and compared bit for bit. non-trivial = history with >= 2 distinct flag settings and a thread burst; distinct = distinct case encodings";
+pub const RULE: &str = "cases = one accepted graph + kinematics, 4 x-space points and a history of 1..40 operations on a shared sampler: SampleX(point, return_metadata, print_debug_info, stability None/Some(1e300)), SampleRng(seed, flags), SampleNear(point with one coordinate moved by 1..8 ulps, flags), UseClone, UseSerdeCopy (continue with a JSON round-tripped copy), Burst(t<=8 threads x m<=6 samples on the shared sampler). model = map (point, stability setting) -> first observed bit pattern of (loop_momenta,u,v,u_trop,v_trop,jacobian | error kind); invariant after every step: every observation equals the model, for all combinations of return_metadata x print_debug_info. generate_sample_from_rng: the rng is cloned, get_dimension() numbers are drawn from the clone, the result must equal the x-space call on those numbers and both rngs must be in the same state afterwards. cross-process: the same graphs/points are sampled in a freshly started process (different hash seeds) and compared bit for bit. non-trivial = history with >= 2 distinct flag settings and a thread burst; distinct = distinct case encodings";
 
 #[derive(Clone, Debug, Serialize, Deserialize)]
 pub enum Op {
     SampleX { pt: usize, meta: bool, debug: bool, stab: bool },
     SampleRng { seed: u64, meta: bool, debug: bool },
+    /// sample a neighbour of point `pt`: coordinate `coord` moved by `ulps` ulps (a cache keyed approximately on
+    /// its inputs would confuse the two)
+    SampleNear { pt: usize, coord: usize, ulps: i64, meta: bool, debug: bool },
     UseClone,
     UseSerdeCopy,
     Burst { threads: usize, per: usize, meta: bool, debug: bool },
@@ -32,11 +35,19 @@ pub struct Case {
 
 pub fn gen_case(t: &mut Tape, tier: Tier) -> Option<Case> {
     let mo = if t.chance(0.3) { 1.0 / 64.0 } else { 0.15 };
-    let p = gen::gen_phys(t, &PhysOpts { max_e: tier.pick(7, 8), max_l: 4, min_omega: mo, dmax: 6, max_ops: 3, profile: gen::SECTOR })?;
+    let opts = PhysOpts { max_e: tier.pick(7, 8), max_l: 4, min_omega: mo, dmax: 6, max_ops: 3, profile: gen::SECTOR };
+    let p = if t.chance(0.1) { gen::gen_phys_union(t, &opts)? } else { gen::gen_phys(t, &opts)? };
     let points: Vec<Vec<f64>> = (0..4).map(|i| if i == 0 { p.x.clone() } else { gen::gen_point(t, &p.g, if i == 3 { &gen::CORNERS } else { &gen::MODERATE }).0 }).collect();
     let n = t.range(1, 40);
     let ops = (0..n)
-        .map(|_| match t.weighted(&[0.5, 0.15, 0.08, 0.07, 0.2]) {
+        .map(|_| match t.weighted(&[0.4, 0.13, 0.07, 0.06, 0.17, 0.17]) {
+            5 => {
+                let dim = gen::dimension(&p.g);
+                // half of the time the gamma coordinate (the one scalar routine with its own iteration), else any
+                let coord = if t.bool() { 2 * p.g.nedges() - 2 } else { t.below(dim) };
+                let ulps = t.range(1, 8) as i64 * if t.bool() { 1 } else { -1 };
+                Op::SampleNear { pt: t.below(4), coord, ulps, meta: t.bool(), debug: t.bool() }
+            }
             0 => Op::SampleX { pt: t.below(4), meta: t.bool(), debug: t.bool(), stab: t.bool() },
             1 => Op::SampleRng { seed: t.next(), meta: t.bool(), debug: t.bool() },
             2 => Op::UseClone,
@@ -79,6 +90,8 @@ fn check_d<const D: usize>(c: &Case, ctx: &mut Ctx) -> Result<(), Failure> {
     let mut cur: SampleGenerator<D> = orig.clone();
     let snapshot0 = serde_json::to_string(&orig).unwrap_or_default();
     let mut model: BTreeMap<(usize, bool), Vec<u64>> = BTreeMap::new();
+    // neighbours: keyed by the exact bit pattern of the derived point
+    let mut near_model: BTreeMap<Vec<u64>, (Vec<f64>, Vec<u64>)> = BTreeMap::new();
     let mut settings_seen = std::collections::BTreeSet::new();
     let mut bursts = 0;
     for (step, op) in c.ops.iter().enumerate() {
@@ -113,6 +126,25 @@ fn check_d<const D: usize>(c: &Case, ctx: &mut Ctx) -> Result<(), Failure> {
                 }
                 if rng.next_u64() != twin.next_u64() {
                     fail!("rng-draw-count", "step {step}: after generate_sample_from_rng the generator is not in the state reached by drawing exactly get_dimension()={dim} numbers");
+                }
+            }
+            Op::SampleNear { pt, coord, ulps, meta, debug } => {
+                settings_seen.insert((*meta, *debug, false));
+                let mut x = c.points[*pt].clone();
+                if *coord < x.len() {
+                    let moved = gen::ulp_step(x[*coord], *ulps);
+                    if moved < 1.0 {
+                        x[*coord] = moved;
+                    }
+                }
+                let key: Vec<u64> = x.iter().map(|v| v.to_bits()).collect();
+                let got = result_bits::<D>(&cur, p, &x, *meta, *debug, false);
+                if got == vec![0xE004] {
+                    fail!("sample-panic", "step {step}: sampling panicked; case {c:?}");
+                }
+                let e = near_model.entry(key).or_insert_with(|| (x.clone(), got.clone()));
+                if e.1 != got {
+                    fail!("history-dependence", "step {step} ({op:?}): a point sampled before now gives a different result; case {c:?}");
                 }
             }
             Op::UseClone => {
@@ -168,6 +200,14 @@ fn check_d<const D: usize>(c: &Case, ctx: &mut Ctx) -> Result<(), Failure> {
             }
         }
     }
+    // neighbours once more, on the original sampler, each preceded by an unrelated point
+    for (x, want) in near_model.values() {
+        let _ = result_bits::<D>(&orig, p, &c.points[3], false, false, false);
+        let got = result_bits::<D>(&orig, p, x, false, false, false);
+        if &got != want {
+            fail!("history-dependence", "a neighbouring point (one coordinate moved by a few ulps) gave a different result when it was sampled right after its neighbour than when sampled after an unrelated point: hidden state keyed on the inputs; point {x:?}; case {c:?}");
+        }
+    }
     ctx.count("operations", c.ops.len() as u64);
     if settings_seen.len() >= 2 && bursts >= 1 {
         ctx.nontrivial();
@@ -175,12 +215,12 @@ fn check_d<const D: usize>(c: &Case, ctx: &mut Ctx) -> Result<(), Failure> {
     Ok(())
 }
 pub fn check(c: &Case, ctx: &mut Ctx) -> Result<(), Failure> {
-    phys::validate(&c.p)?;
+    phys::validate_opt(&c.p, true)?;
     let dim = gen::dimension(&c.p.g);
     if c.points.len() != 4 || c.points.iter().any(|x| x.len() < dim || x.iter().any(|v| !(v.is_finite() && *v >= 0.0 && *v < 1.0))) {
         fail!("bad-case", "needs 4 points in [0,1)^dim");
     }
-    if c.ops.iter().any(|o| matches!(o, Op::SampleX { pt, .. } if *pt >= 4) || matches!(o, Op::Burst { threads, per, .. } if *threads > 16 || *per > 16)) {
+    if c.ops.iter().any(|o| matches!(o, Op::SampleNear { pt, ulps, .. } if *pt >= 4 || ulps.abs() > 64) || matches!(o, Op::SampleX { pt, .. } if *pt >= 4) || matches!(o, Op::Burst { threads, per, .. } if *threads > 16 || *per > 16)) {
         fail!("bad-case", "operation out of range");
     }
     with_d!(c.p.g.d, check_d(c, ctx))
@@ -235,6 +275,80 @@ fn cross_process(tier: Tier, seed: u64, stats: &mut Stats) -> serde_json::Value 
     }
 }
 
+/// the same purity claims in the build of momtrop WITHOUT its `log` feature (debug output through println!):
+/// a second tiny crate (harness_nolog) is built against /repo and fed generated cases
+fn nolog_stage(tier: Tier, seed: u64, stats: &mut Stats) -> serde_json::Value {
+    use std::io::Write;
+    use std::process::{Command, Stdio};
+    let root = engine::verif_root();
+    let dir = root.join("harness_nolog");
+    let tdir = dir.join("target");
+    let b = Command::new("cargo").args(["build", "--release", "--offline"]).env("CARGO_NET_OFFLINE", "true").env("CARGO_TARGET_DIR", &tdir).current_dir(&dir).output();
+    match b {
+        Ok(o) if o.status.success() => {}
+        Ok(o) => {
+            stats.harness_panics.push(format!("no-log harness does not build: {}", engine::truncate(&String::from_utf8_lossy(&o.stderr), 600)));
+            return serde_json::json!({"nolog": "build failed"});
+        }
+        Err(e) => {
+            stats.harness_panics.push(format!("cargo not runnable for the no-log harness: {e}"));
+            return serde_json::json!({"nolog": "cargo failed"});
+        }
+    }
+    let n = tier.pick(200, 4000);
+    let tapes = engine::sample_tapes("C17-nolog", seed, n * 2, 700);
+    let cases: Vec<Case> = tapes.iter().filter_map(|tp| gen_case(&mut Tape::new(tp), tier)).take(n).collect();
+    let items: Vec<serde_json::Value> = cases.iter().enumerate().map(|(i, c)| serde_json::json!({"p": c.p, "points": c.points, "seeds": [seed ^ (i as u64), (i as u64).wrapping_mul(0x9E3779B97F4A7C15)]})).collect();
+    let report_path = tdir.join(format!("report-{}.json", std::process::id()));
+    let child = Command::new(tdir.join("release").join("mtverif-nolog")).arg(&report_path).stdin(Stdio::piped()).stdout(Stdio::null()).stderr(Stdio::null()).spawn();
+    let mut child = match child {
+        Ok(c) => c,
+        Err(e) => {
+            stats.harness_panics.push(format!("no-log harness not runnable: {e}"));
+            return serde_json::json!({"nolog": "spawn failed"});
+        }
+    };
+    if let Some(mut si) = child.stdin.take() {
+        let _ = si.write_all(serde_json::to_string(&items).unwrap().as_bytes());
+    }
+    let ok = child.wait().map(|s| s.success()).unwrap_or(false);
+    let txt = std::fs::read_to_string(&report_path).unwrap_or_default();
+    let _ = std::fs::remove_file(&report_path);
+    if !ok || txt.is_empty() {
+        stats.harness_panics.push("no-log harness crashed or wrote no report".into());
+        return serde_json::json!({"nolog": "no report"});
+    }
+    let rep: serde_json::Value = serde_json::from_str(&txt).unwrap_or_default();
+    let viol: Vec<String> = rep["violations"].as_array().map(|a| a.iter().filter_map(|v| v.as_str().map(String::from)).collect()).unwrap_or_default();
+    if let Some(v) = viol.first() {
+        // the index of the item is in the message; attach that case
+        let idx = v.split_whitespace().nth(1).and_then(|s| s.parse::<usize>().ok()).unwrap_or(0);
+        let case = cases.get(idx).map(|c| serde_json::to_value(c).unwrap()).unwrap_or_default();
+        stats.failures.push((Failure::new("nolog-build-impure", format!("{v} ({} such messages)", viol.len())), case));
+    }
+    // cross-build comparison (reported, and asserted: both builds run the same arithmetic)
+    let mut cross_diff = 0usize;
+    if let Some(refs) = rep["reference"].as_array() {
+        for (i, c) in cases.iter().enumerate() {
+            let mine: Vec<Vec<u64>> = sample_ref(c);
+            let theirs: Vec<Vec<u64>> = serde_json::from_value(refs.get(i).cloned().unwrap_or_default()).unwrap_or_default();
+            if theirs.len() == mine.len() && theirs != mine {
+                cross_diff += 1;
+            }
+        }
+    }
+    serde_json::json!({"nolog_build_samplers": cases.len(), "nolog_build_samples": rep["samples"], "nolog_violations": viol.len(), "log_vs_nolog_builds_with_different_bits": cross_diff})
+}
+fn sample_ref(c: &Case) -> Vec<Vec<u64>> {
+    fn f<const D: usize>(c: &Case) -> Vec<Vec<u64>> {
+        match sut::build::<D>(&c.p.g, c.p.kin.sig.clone()) {
+            Ok(s) => c.points.iter().map(|x| result_bits::<D>(&s, &c.p, x, false, false, false)).collect(),
+            Err(_) => vec![vec![0xEEEE]],
+        }
+    }
+    with_d!(c.p.g.d, f(c))
+}
+
 /// supplementary tripwire (reported, not the decider): interior mutability / globals in the sources
 fn source_scan() -> serde_json::Value {
     let mut hits = vec![];
@@ -261,8 +375,14 @@ pub fn run(tier: Tier, seed: u64) -> i32 {
     let mut stats = engine::run_spec(&sp, tier, seed);
     engine::run_regressions::<Case>("C17", check, &mut stats);
     let mut extra = cross_process(tier, seed, &mut stats);
+    let nl = nolog_stage(tier, seed, &mut stats);
+    if let (Some(a), Some(b)) = (extra.as_object_mut(), nl.as_object()) {
+        for (k, v) in b {
+            a.insert(k.clone(), v.clone());
+        }
+    }
     extra["source_scan_interior_mutability_hits"] = source_scan();
-    engine::finish("C17", tier, seed, RULE, stats, t0, extra, &["thread schedules are sampled by real concurrent execution, not enumerated; the absence of interior mutability in the sources (scan reported in the evidence) is the argument that no interleaving can matter", "only the println!-free `log` feature build is exercised"])
+    engine::finish("C17", tier, seed, RULE, stats, t0, extra, &["thread schedules are sampled by real concurrent execution, not enumerated; the absence of interior mutability in the sources (scan reported in the evidence) is the argument that no interleaving can matter", "the build without the `log` feature (println! path) is exercised by a second crate (harness_nolog) on generated cases: flag independence, rng equivalence, and bit-equality with the `log` build"])
 }
 pub fn replay(path: &str) -> i32 {
     engine::replay_file::<Case>("C17", path, check)
